@@ -56,9 +56,16 @@ def file_dir():
         if not _DIR or not os.path.isdir(_DIR):
             _DIR = tempfile.mkdtemp(prefix="c20_")
             os.environ["VERIF_C20_DIR"] = _DIR
+        # written once, atomically: the fresh interpreters started in parallel share this directory and must never
+        # see a file that another process is in the middle of (re)writing
         for k, t in {**FILES, **SEED_FILES}.items():
-            with open(os.path.join(_DIR, k + ".opt"), "w") as f:
+            path = os.path.join(_DIR, k + ".opt")
+            if os.path.exists(path) and open(path).read() == t:
+                continue
+            tmp = f"{path}.{os.getpid()}.tmp"
+            with open(tmp, "w") as f:
                 f.write(t)
+            os.replace(tmp, path)
     return _DIR
 
 
@@ -172,8 +179,10 @@ def reference(op):
 
 def compute_reference(op):
     r = fresh_call(op)
-    with open(os.path.join(file_dir(), "ref_" + "_".join(op) + ".json"), "w") as f:
+    path = os.path.join(file_dir(), "ref_" + "_".join(op) + ".json")
+    with open(path + ".tmp", "w") as f:
         json.dump(r, f)
+    os.replace(path + ".tmp", path)
     return op, r
 
 
